@@ -87,9 +87,47 @@ Definition set_size (v : Z) (s : state) : state :=
 
 (* ---- the methods of xlist.go ---- *)
 
-(* func (l *List[T]) Clear() { l.front = nil; l.back = nil; l.size = 0 }
-   The cells keep whatever links they had. *)
-Definition clear (s : state) : state :=
+(* func (l *List[T]) Clear() {
+     for node := l.front; node != nil; { next := node.next; node.prev = nil; node.next = nil; node = next }
+     l.front = nil; l.back = nil; l.size = 0 }
+
+   The loop, one iteration per unit of fuel.  Running out of fuel is NOT a normal exit: it is reported
+   as [Panic POther] (and [step]/[run] then end the run with a panic observation, which no recorded
+   observation of a returning Clear can match).  The Go loop itself always ends: an iteration clears
+   [node.next], so a second visit of a node reads nil and stops; with n allocated nodes there are at
+   most n+1 iterations, which is the fuel [clear] passes. *)
+Fixpoint clear_loop (fuel : nat) (node : ptr) (s : state) : result state :=
+  match node with
+  | None => Ok s                                   (* node != nil fails: leave the loop *)
+  | Some _ =>
+      match fuel with
+      | O => Panic POther
+      | S fuel' =>
+          (* next := node.next *)
+          n <- deref s node ;;
+          let nxt := next n in
+          (* node.prev = nil *)
+          s <- set_prev node None s ;;
+          (* node.next = nil *)
+          s <- set_next node None s ;;
+          (* node = next *)
+          clear_loop fuel' nxt s
+      end
+  end.
+
+Definition clear (s : state) : result state :=
+  (* for node := l.front; node != nil; { ... } *)
+  s <- clear_loop (S (length (heap s))) (front (lst s)) s ;;
+  (* l.front = nil *)
+  let s := set_front None s in
+  (* l.back = nil *)
+  let s := set_back None s in
+  (* l.size = 0 *)
+  Ok (set_size 0 s).
+
+(* Clear as it was before the repair: { l.front = nil; l.back = nil; l.size = 0 }.  The cells keep
+   whatever links they had (see [clear_original_refuted] in Proofs.v). *)
+Definition clear_original (s : state) : state :=
   let s := set_front None s in
   let s := set_back None s in
   set_size 0 s.
@@ -244,7 +282,14 @@ Definition exec (o : op) (s : state) : result state :=
   | LMoveAfter n m => move_after (Some n) (Some m) s
   | LMoveToFront n => move_to_front (Some n) s
   | LMoveToBack n => move_to_back (Some n) s
-  | LClear => Ok (clear s)
+  | LClear => clear s
+  end.
+
+(* the same with the unrepaired Clear *)
+Definition exec_original (o : op) (s : state) : result state :=
+  match o with
+  | LClear => Ok (clear_original s)
+  | _ => exec o s
   end.
 
 (* What the harness prints after every operation, by walking the real list through the public API
@@ -257,7 +302,8 @@ Record obs := mkObs {
   o_vals : list Z;              (* Value of each node of the forward walk *)
   o_front_prev_nil : bool;      (* Front() == nil || Front().Prev() == nil *)
   o_back_next_nil : bool;       (* Back() == nil || Back().Next() == nil *)
-  o_removed_isolated : bool     (* after Remove(n): n.Prev() == nil && n.Next() == nil; true for other ops *)
+  o_removed_isolated : bool     (* every handle handed out so far that the forward walk does not reach
+                                   has Prev() == nil && Next() == nil *)
 }.
 
 (* A walk that has not reached nil after (number of allocated nodes + 1) nodes is cut and marked with
@@ -293,7 +339,17 @@ Definition end_nil (dir : cell -> ptr) (H : list cell) (p : ptr) : bool :=
   | Some h => match nth_error H h with Some c => is_nil (dir c) | None => false end
   end.
 
-Definition observe (o : op) (s : state) : obs :=
+(* [marks n fwd]: for each handle 0..n-1, whether the forward walk visited it (the harness's
+   [member] set; a cut walk's sentinel marks nothing as long as fewer than 999999 nodes exist). *)
+Definition marks (n : nat) (fwd : list nat) : list bool :=
+  fold_left (fun m h => upd m h true) fwd (repeat false n).
+
+(* for _, n := range nodes { if !member[n] && (n.Prev() != nil || n.Next() != nil) { iso = false } } *)
+Definition detached_isolated (H : list cell) (fwd : list nat) : bool :=
+  forallb (fun cm : cell * bool => snd cm || (is_nil (prev (fst cm)) && is_nil (next (fst cm))))
+          (combine H (marks (length H) fwd)).
+
+Definition observe (s : state) : obs :=
   let H := heap s in
   let fuel := S (length H) in
   let fwd := walk next fuel H (front (lst s)) in
@@ -304,10 +360,7 @@ Definition observe (o : op) (s : state) : obs :=
         (map (value_of H) fwd)
         (end_nil prev H (front (lst s)))
         (end_nil next H (back (lst s)))
-        (match o with
-         | LRemove n => allocated H n && is_nil (prev_of H n) && is_nil (next_of H n)
-         | _ => true
-         end).
+        (detached_isolated H fwd).
 
 Definition panic_obs : obs := mkObs true [] [] 0 [] false false false.
 
@@ -315,7 +368,7 @@ Definition panic_obs : obs := mkObs true [] [] 0 [] false false false.
    keeps the old state and [run] stops after the panic observation (so must the harness). *)
 Definition step (s : state) (o : op) : state * obs :=
   match exec o s with
-  | Ok s' => (s', observe o s')
+  | Ok s' => (s', observe s')
   | Panic _ => (s, panic_obs)
   end.
 
@@ -336,3 +389,28 @@ Fixpoint run_state_from (s : state) (ops : list op) : state :=
   end.
 
 Definition run_state (ops : list op) : state := run_state_from empty ops.
+
+(* the same history with the unrepaired Clear (used only for [clear_original_refuted]) *)
+Definition step_original (s : state) (o : op) : state * obs :=
+  match exec_original o s with
+  | Ok s' => (s', observe s')
+  | Panic _ => (s, panic_obs)
+  end.
+
+Fixpoint run_original_from (s : state) (ops : list op) : list obs :=
+  match ops with
+  | [] => []
+  | o :: ops' =>
+      let '(s', ob) := step_original s o in
+      ob :: (if o_panic ob then [] else run_original_from s' ops')
+  end.
+
+Definition run_original (ops : list op) : list obs := run_original_from empty ops.
+
+Fixpoint run_state_original_from (s : state) (ops : list op) : state :=
+  match ops with
+  | [] => s
+  | o :: ops' => run_state_original_from (fst (step_original s o)) ops'
+  end.
+
+Definition run_state_original (ops : list op) : state := run_state_original_from empty ops.
